@@ -52,7 +52,7 @@ def run(prop, tier, repo=None, procs=16):
         lines = T.read_lines(stats["lines_path"])
         with core.pool(resolver_replay.worker_init, (repo,), procs) as p:
             size = max(50, min(4000, len(lines) // (procs * 4) + 1))
-            parts = p.map(resolver_replay.replay_chunk, [(ch, c["variants"]) for ch in core.chunks(lines, size)])
+            parts = core.pmap(p, resolver_replay.replay_chunk, [(ch, c["variants"]) for ch in core.chunks(lines, size)])
         tot = {"n": 0, "same": 0, "attention": [], "per_kind": {}, "dropped": 0, "skipped": 0, "lockstep_diff": []}
         for r in parts:
             tot["lockstep_diff"] += r["lockstep_diff"]
@@ -67,7 +67,7 @@ def run(prop, tier, repo=None, procs=16):
         sub = lines[core.seed() % 3::3]
         with core.pool(resolver_replay.worker_init, (repo, True), procs) as p:
             size = max(50, min(4000, len(sub) // (procs * 4) + 1))
-            parts = p.map(resolver_replay.replay_chunk, [(ch, c["variants"][:1]) for ch in core.chunks(sub, size)])
+            parts = core.pmap(p, resolver_replay.replay_chunk, [(ch, c["variants"][:1]) for ch in core.chunks(sub, size)])
         tot2 = {"n": sum(r["n"] for r in parts), "same": sum(r["same"] for r in parts), "attention": [a for r in parts for a in r["attention"]],
                 "per_kind": {"with ANYTREE_ASSERTIONS=1": sum(r["n"] for r in parts)}, "dropped": 0, "skipped": 0, "lockstep_diff": []}
         tot2.update(config=c, tlc=stats, vectors=len(sub))
